@@ -72,6 +72,12 @@ func switchHead(fn *ssa.Function, val ssa.Value) *ssa.TypeAssert {
 // simulate replays the type switch headed by ta for dynamic type t. It returns the
 // block entered (case body) and whether that is the default arm (no case matched).
 func simulate(ta *ssa.TypeAssert, t types.Type) (body *ssa.BasicBlock, isDefault bool, matched *ssa.TypeAssert) {
+	body, isDefault, matched, _ = simulateFrom(ta, t)
+	return
+}
+
+// simulateFrom also returns the block holding the branch that decided.
+func simulateFrom(ta *ssa.TypeAssert, t types.Type) (body *ssa.BasicBlock, isDefault bool, matched *ssa.TypeAssert, from *ssa.BasicBlock) {
 	val := ta.X
 	cur := ta
 	for {
@@ -92,12 +98,12 @@ func simulate(ta *ssa.TypeAssert, t types.Type) (body *ssa.BasicBlock, isDefault
 		if iff == nil {
 			// assertion without a branch (empty case body shares the successor)
 			if assertMatches(t, cur.AssertedType) {
-				return cur.Block(), false, cur
+				return cur.Block(), false, cur, cur.Block()
 			}
-			return cur.Block(), true, nil
+			return cur.Block(), true, nil, cur.Block()
 		}
 		if assertMatches(t, cur.AssertedType) {
-			return iff.Block().Succs[0], false, cur
+			return iff.Block().Succs[0], false, cur, iff.Block()
 		}
 		next := iff.Block().Succs[1]
 		var nta *ssa.TypeAssert
@@ -108,7 +114,7 @@ func simulate(ta *ssa.TypeAssert, t types.Type) (body *ssa.BasicBlock, isDefault
 			}
 		}
 		if nta == nil {
-			return next, true, nil
+			return next, true, nil, iff.Block()
 		}
 		cur = nta
 	}
